@@ -123,6 +123,12 @@ class UnionDomain(Domain):
         return self._sample_grid_with_d(d, params, device)
 
     def _sample_grid_with_n(self, n, params=Points.empty(), device="cpu"):
+        if len(params) > 1:
+            # every parameter row gets its own grid
+            grid = Points.empty()
+            for i in range(len(params)):
+                grid = grid | self._sample_grid_with_n(n, params[i,], device)
+            return grid
         volume_approx, volume_a, _ = self._get_volume(
             return_value_of_a_b=True, params=params, device=device
         )
